@@ -14,18 +14,19 @@ structure HeadUpd (hd hd' : Table) (h : Nat) (s : Slot) : Prop where
   inuse : hd'.inuse = (hd.deleteD h).inuse + s.r.size
   garbage : hd'.garbage = (hd.deleteD h).garbage
   off : hd'.off = hd.off + s.r.size
+  soff : s.off = hd.off
 
 theorem headUpd_put (t t' : Table) (h : Nat) (r : Rec) (now : Int) (hp : t.put h r now = .ok t') :
     HeadUpd t t' h (t.putSlot h r now) := by
   obtain ⟨a, b, _, _, e, _⟩ := put_fields t t' h r now hp
   obtain ⟨_, _, _, _, _, o, _⟩ := put_fields t t' h r now hp
-  exact ⟨fun h' => find_put t t' h h' r now hp, a, b, e, rfl, put_inuse t t' h r now hp, put_garbage t t' h r now hp, o⟩
+  exact ⟨fun h' => find_put t t' h h' r now hp, a, b, e, rfl, put_inuse t t' h r now hp, put_garbage t t' h r now hp, o, deleteD_off t h⟩
 
 theorem headUpd_putRaw (t t' : Table) (h : Nat) (r : Rec) (hp : t.putRaw h r = .ok t') :
     HeadUpd t t' h (t.putRawSlot h r) := by
   obtain ⟨a, b, _, _, e, _⟩ := putRaw_fields t t' h r hp
   obtain ⟨_, _, _, _, _, o, _⟩ := putRaw_fields t t' h r hp
-  exact ⟨fun h' => find_putRaw t t' h h' r hp, a, b, e, rfl, putRaw_inuse t t' h r hp, putRaw_garbage t t' h r hp, o⟩
+  exact ⟨fun h' => find_putRaw t t' h h' r hp, a, b, e, rfl, putRaw_inuse t t' h r hp, putRaw_garbage t t' h r hp, o, deleteD_off t h⟩
 
 theorem commit_findIn (k : KV) (hd hd' : Table) (h h' : Nat) (s : Slot) (hh : k.head = some hd)
     (u : HeadUpd hd hd' h s) :
@@ -37,7 +38,7 @@ theorem commit_findIn (k : KV) (hd hd' : Table) (h h' : Nat) (s : Slot) (hh : k.
 theorem commit_wf (k : KV) (w : k.WF) (hd hd' : Table) (h : Nat) (s : Slot) (hh : k.head = some hd)
     (u : HeadUpd hd hd' h s) (hfit : s.r.size < k.tableSize ∧ s.r.key.length < 256) : (k.commit hd' h).WF := by
   have hdmem : hd ∈ k.newestFirst := by simp [newestFirst, hh]
-  refine ⟨?_, ?_, ?_, ?_, ?_, ?_, ?_, ?_, ?_, ?_⟩
+  refine ⟨?_, ?_, ?_, ?_, ?_, ?_, ?_, ?_, ?_, ?_, ?_⟩
   · intro t ht hr
     simp only [commit, List.mem_map] at ht
     obtain ⟨x, hx, rfl⟩ := ht
@@ -113,6 +114,11 @@ theorem commit_wf (k : KV) (w : k.WF) (hd hd' : Table) (h : Nat) (s : Slot) (hh 
       rw [u.inuse, u.garbage, u.off]; omega
     · exact deleteD_tot x h (w.nodup x (by simp [newestFirst, hx])) (w.acct x (by simp [newestFirst, hx]))
         (w.tot x (by simp [newestFirst, hx]))
+  · intro t ht
+    simp only [commit, newestFirst, Option.toList, List.cons_append, List.nil_append, List.mem_cons, List.mem_map] at ht
+    rcases ht with rfl | ⟨x, hx, rfl⟩
+    · exact layout_append hd _ h s (w.layout hd hdmem) u.slots u.soff u.off
+    · exact layout_deleteD x h (w.layout x (by simp [newestFirst, hx]))
 
 theorem ensureHead_wf (k : KV) (w : k.WF) : k.ensureHead.WF := by
   unfold ensureHead; cases hh : k.head with
